@@ -44,9 +44,10 @@ func setup(c *casket.Controller) error {
 
 func logParse(c *casket.Controller) ([]*Rule, error) {
 	var rules []*Rule
-	var logExceptions []string
 	for c.Next() {
 		args := c.RemainingArgs()
+		// exceptions belong to this log directive only
+		var logExceptions []string
 
 		ip4Mask := net.IPMask(net.ParseIP(DefaultIP4Mask).To4())
 		ip6Mask := net.IPMask(net.ParseIP(DefaultIP6Mask))
